@@ -95,15 +95,13 @@ func (x *runner) settledOnce() (bool, string) {
 	for c, cl := range w.Conns {
 		sid := fmt.Sprintf("s%d", c)
 		if cl.Established() && !cl.Ended() {
-			if w.Count("conn.read.err:"+sid) > 0 {
-				if w.Count("shutdown.done:"+sid) == 0 {
-					return false, fmt.Sprintf("teardown of %s", sid)
-				}
+			if w.Count("shutdown.done:"+sid) > 0 {
 				cl.MarkEnded()
 				continue
 			}
-			if cl.Conn.Pending() > 0 || w.Count("conn.pkt.done:"+sid) < cl.Sent() {
-				return false, fmt.Sprintf("packets of c%d (%d/%d)", c, w.Count("conn.pkt.done:"+sid), cl.Sent())
+			// served and idle: every packet processed and the connection loop is waiting for the next one
+			if !cl.Conn.Reading() || w.Count("conn.pkt.done:"+sid) < cl.Sent() {
+				return false, fmt.Sprintf("c%d (%d/%d packets processed, reading=%v)", c, w.Count("conn.pkt.done:"+sid), cl.Sent(), cl.Conn.Reading())
 			}
 		}
 	}
@@ -147,13 +145,7 @@ func (x *runner) settle() bool {
 	return ok
 }
 
-func levelsOf(w *node.World, mounted string) (string, []string) {
-	i := strings.IndexByte(mounted, '/')
-	if i < 0 {
-		return "", []string{"?no mount point", mounted}
-	}
-	return mounted[:i], w.Levels(mounted[i+1:])
-}
+func levelsOf(w *node.World, mounted string) (string, []string) { return w.SplitMounted(mounted) }
 
 func (x *runner) probe() {
 	ids := []int{}
@@ -166,60 +158,64 @@ func (x *runner) probe() {
 		if n.Down {
 			continue
 		}
-		type sess struct {
-			S      string `json:"s"`
-			Client string `json:"client"`
-			Peer   int    `json:"peer"`
-			Mount  string `json:"mount"`
-		}
-		type sub struct {
-			S     string   `json:"s"`
-			Mount string   `json:"mount"`
-			F     []string `json:"f"`
-			Q     int      `json:"q"`
-			Peer  int      `json:"peer"`
-		}
-		type ret struct {
-			Mount string   `json:"mount"`
-			T     []string `json:"t"`
-			P     string   `json:"p"`
-		}
-		ss := []sess{}
-		for _, s := range n.State.SessionMetadatas().All() {
-			ss = append(ss, sess{S: s.SessionID, Client: s.ClientID, Peer: int(s.Peer), Mount: s.MountPoint})
-		}
-		sort.Slice(ss, func(i, j int) bool { return ss[i].S < ss[j].S })
-		us := []sub{}
-		for _, s := range n.State.Subscriptions().All() {
-			m, f := levelsOf(x.w, string(s.Pattern))
-			us = append(us, sub{S: s.SessionID, Mount: m, F: f, Q: int(s.QoS), Peer: int(s.Peer)})
-		}
-		sort.Slice(us, func(i, j int) bool {
-			if us[i].S != us[j].S {
-				return us[i].S < us[j].S
+		id := id
+		// the listing is taken and recorded atomically with respect to every other recorded event
+		x.r.Do(func() rec.Ev {
+			type sess struct {
+				S      string `json:"s"`
+				Client string `json:"client"`
+				Peer   int    `json:"peer"`
+				Mount  string `json:"mount"`
 			}
-			return strings.Join(us[i].F, "/") < strings.Join(us[j].F, "/")
-		})
-		rs := []ret{}
-		if msgs, err := n.State.Topics().Get([]byte("#")); err == nil {
-			for _, m := range msgs {
-				mp, t := levelsOf(x.w, string(m.Publish.Topic))
-				rs = append(rs, ret{Mount: mp, T: t, P: string(m.Publish.Payload)})
+			type sub struct {
+				S     string   `json:"s"`
+				Mount string   `json:"mount"`
+				F     []string `json:"f"`
+				Q     int      `json:"q"`
+				Peer  int      `json:"peer"`
 			}
-		}
-		sort.Slice(rs, func(i, j int) bool {
-			return rs[i].Mount+strings.Join(rs[i].T, "/") < rs[j].Mount+strings.Join(rs[j].T, "/")
+			type ret struct {
+				Mount string   `json:"mount"`
+				T     []string `json:"t"`
+				P     string   `json:"p"`
+			}
+			ss := []sess{}
+			for _, s := range n.State.SessionMetadatas().All() {
+				ss = append(ss, sess{S: s.SessionID, Client: s.ClientID, Peer: int(s.Peer), Mount: s.MountPoint})
+			}
+			sort.Slice(ss, func(i, j int) bool { return ss[i].S < ss[j].S })
+			us := []sub{}
+			for _, s := range n.State.Subscriptions().All() {
+				m, f := levelsOf(x.w, string(s.Pattern))
+				us = append(us, sub{S: s.SessionID, Mount: m, F: f, Q: int(s.QoS), Peer: int(s.Peer)})
+			}
+			sort.Slice(us, func(i, j int) bool {
+				if us[i].S != us[j].S {
+					return us[i].S < us[j].S
+				}
+				return strings.Join(us[i].F, "/") < strings.Join(us[j].F, "/")
+			})
+			rs := []ret{}
+			if msgs, err := n.State.Topics().Get([]byte("#")); err == nil {
+				for _, m := range msgs {
+					mp, t := levelsOf(x.w, string(m.Publish.Topic))
+					rs = append(rs, ret{Mount: mp, T: t, P: string(m.Publish.Payload)})
+				}
+			}
+			sort.Slice(rs, func(i, j int) bool {
+				return rs[i].Mount+strings.Join(rs[i].T, "/") < rs[j].Mount+strings.Join(rs[j].T, "/")
+			})
+			local := []string{}
+			for _, s := range n.Local.ListSessions() {
+				local = append(local, s.ID())
+			}
+			sort.Strings(local)
+			held := wasp.VerifPoolOutstanding(n.Writer)
+			if held == nil {
+				held = []int32{}
+			}
+			return rec.Ev{"op": "probe", "n": id, "synced": x.gossip == "auto", "sessions": ss, "subs": us, "retained": rs, "local": local, "held": held}
 		})
-		local := []string{}
-		for _, s := range n.Local.ListSessions() {
-			local = append(local, s.ID())
-		}
-		sort.Strings(local)
-		held := wasp.VerifPoolOutstanding(n.Writer)
-		if held == nil {
-			held = []int32{}
-		}
-		x.r.Emit(rec.Ev{"op": "probe", "n": id, "sessions": ss, "subs": us, "retained": rs, "local": local, "held": held})
 	}
 }
 
@@ -258,7 +254,11 @@ func (x *runner) run(idx int, s scenario) {
 	if len(s.Nodes) == 0 {
 		s.Nodes = []int{1}
 	}
-	x.r.Emit(rec.Ev{"op": "new", "scn": idx, "nodes": s.Nodes})
+	tbl := s.Auth
+	if tbl == nil {
+		tbl = []authEnt{}
+	}
+	x.r.Emit(rec.Ev{"op": "new", "scn": idx, "nodes": s.Nodes, "table": tbl})
 	if len(s.Auth) > 0 {
 		dir, _ := ioutil.TempDir("", "brokerauth")
 		defer os.RemoveAll(dir)
@@ -379,6 +379,35 @@ func (x *runner) step(o op) {
 			raw = mq.Connect(o.Client, o.User, o.Pass, o.KA, true, nil)
 		}
 		cl.Send(rec.Ev{"kind": o.Kind, "id": o.ID}, raw)
+		if !o.NoWait {
+			x.settle()
+		}
+	case "ackmsg":
+		// answer the delivery of payload P with a packet of the given kind, using the identifier the broker chose
+		cl := x.client(o.C)
+		id := -1
+		for _, p := range cl.Received() {
+			if p.Type == mq.PUBLISH && string(p.Payload) == o.P && p.QoS > 0 {
+				id = p.ID
+			}
+		}
+		if id < 0 {
+			x.r.Emit(rec.Ev{"op": "harness-error", "what": "ackmsg: payload " + o.P + " was never delivered to c" + strconv.Itoa(o.C)})
+			x.stall = true
+			return
+		}
+		var raw []byte
+		switch o.Kind {
+		case "PUBACK":
+			raw = mq.PubAck(id)
+		case "PUBREC":
+			raw = mq.PubRec(id)
+		case "PUBCOMP":
+			raw = mq.PubComp(id)
+		case "PUBREL":
+			raw = mq.PubRel(id)
+		}
+		cl.Send(rec.Ev{"kind": o.Kind, "id": id}, raw)
 		if !o.NoWait {
 			x.settle()
 		}
